@@ -28,15 +28,18 @@ EXTENDS Integers, Sequences, FiniteSets, TLC, SequencesExt, Json
 
 CONSTANTS MaxTx,      \* bound on the length of a history
           Repush,     \* "always" | "if_larger"
-          Scheds      \* "single": one method for all years; "pairs": also every two-entry schedule changing at instant 3
+          Scheds,     \* "single": one method for all years; "pairs": also every two-entry schedule changing at instant 3
+          YearCheck   \* "instant_or_year": a new lot is sought when the instant advances or the local year changes (the code);
+                      \* "instant_only": only when the instant advances (the defect repaired by f858ad6)
 
 VARIABLES hist, m1, m2, pc, ei, L, ea, la, partial, heap, cto, cfrom, out
 vars == <<hist, m1, m2, pc, ei, L, ea, la, partial, heap, cto, cfrom, out>>
 
 Methods == {"fifo", "lifo", "hifo", "lofo"}
-Times  == 1..3              \* instants 1 and 2 lie in the first year of the schedule, instant 3 in the second
-Entry(t) == IF t <= 2 THEN 1 ELSE 2
-MethodAt(t) == IF t <= 2 THEN m1 ELSE m2
+Times  == 1..3              \* instants 1 and 2 lie in the first year of the schedule; instant 3 is the turn of the year: written with
+                            \* different UTC offsets, a transaction at instant 3 lies in the first or in the second local year (field yr)
+Entry(e) == e.yr
+MethodAt(e) == IF e.yr = 1 THEN m1 ELSE m2
 Amts   == 1..2
 Prices == 1..2
 LastT  == IF hist = << >> THEN 1 ELSE hist[Len(hist)].t
@@ -93,8 +96,8 @@ PushRange(h, a, b) == h \o [k \in 1..(b - a + 1) |-> a + k - 1]
 SeekRes(e, eaIn, laIn, pt, h, ct, cf) ==
   LET E  == eaIn - laIn
       to == ToIndex(e)
-      c  == Entry(e.t)
-      Method == MethodAt(e.t)
+      c  == Entry(e)
+      Method == MethodAt(e)
   IN IF to = 0 THEN [ok |-> FALSE]
      ELSE IF Method = "fifo" THEN
             LET r == CSeek(cf[c], to, pt)
@@ -115,7 +118,7 @@ NextEv(i, l, eaIn, laIn, pt, h, ct, cf) ==
   IN IF i + 1 > NEv THEN [st |-> "done"]
      ELSE LET e2  == Ev(i + 1)
               ea2 == e2.amt
-          IN IF i # 0 /\ (Ev(i).t < e2.t \/ Entry(Ev(i).t) # Entry(e2.t)) THEN
+          IN IF i # 0 /\ (Ev(i).t < e2.t \/ (YearCheck = "instant_or_year" /\ Entry(Ev(i)) # Entry(e2))) THEN
                LET pt2 == IF l # 0 THEN (l :> la2) @@ pt ELSE pt
                    s   == SeekRes(e2, ea2, la2, pt2, h, ct, cf)
                IN IF s.ok THEN [st |-> "ok", ei |-> i + 1, L |-> s.lot, ea |-> ea2, la |-> s.la, pt |-> s.pt, heap |-> s.heap, cto |-> s.cto, cfrom |-> s.cfrom]
@@ -145,10 +148,11 @@ Holdings == FoldSeq(LAMBDA x, acc : IF IsLot(x) THEN acc + x.amt ELSE acc - x.am
 
 \* only valid histories are built: a disposal never exceeds what is held when it happens
 Build == /\ pc = "build" /\ Len(hist) < MaxTx
-         /\ \E t \in Times, k \in {"buy", "earn", "out"}, amt \in Amts, p \in Prices :
+         /\ \E t \in Times, k \in {"buy", "earn", "out"}, amt \in Amts, p \in Prices, yr \in 1..2 :
               /\ t >= LastT
+              /\ (t < 3 => yr = 1) /\ (k = "buy" => yr = (IF t < 3 THEN 1 ELSE 2))      \* (the year of a purchase plays no part)
               /\ (k = "out" => p = 1 /\ amt <= Holdings)
-              /\ hist' = Append(hist, [k |-> k, t |-> t, amt |-> amt, p |-> p])
+              /\ hist' = Append(hist, [k |-> k, t |-> t, amt |-> amt, p |-> p, yr |-> yr])
          /\ UNCHANGED <<m1, m2, pc, ei, L, ea, la, partial, heap, cto, cfrom, out>>
 
 Start == /\ pc = "build" /\ hist # << >> /\ NEv > 0
@@ -188,7 +192,7 @@ RemBefore(i, n) == Lot(i).amt - Taken(i, n - 1)
 GoodPick(n) == LET f == out[n]
                    e == hist[f.ev]
                IN f.lot = 0 \/ ( /\ Lot(f.lot).t <= e.t /\ RemBefore(f.lot, n) >= f.amt /\ f.amt > 0
-                                 /\ \A j \in 1..NLots : (Lot(j).t <= e.t /\ RemBefore(j, n) > 0) => ~Better(MethodAt(e.t), j, f.lot) )
+                                 /\ \A j \in 1..NLots : (Lot(j).t <= e.t /\ RemBefore(j, n) > 0) => ~Better(MethodAt(e), j, f.lot) )
 \* C01 (and the per-fraction half of C02): no fraction passes over a better-ranked available lot
 PickInv == \A n \in 1..Len(out) : GoodPick(n)
 \* C02: valid histories are never rejected
@@ -206,8 +210,8 @@ AppendOnly == [][IsPrefix(out, out')]_vars
 \* the current lot is still a candidate of the entry in force (this is the invariant the repaired defect broke)
 HeapComplete ==
   pc = "loop" =>
-    LET c == Entry(Ev(ei).t) IN
-    MethodAt(Ev(ei).t) # "fifo" =>
+    LET c == Entry(Ev(ei)) IN
+    MethodAt(Ev(ei)) # "fifo" =>
       \A j \in 1..cto[c] : (j # L /\ PartialOf(partial, j) > 0) => \E k \in 1..Len(heap[c]) : heap[c][k] = j
 
 \* the deterministic result for a finished run, printed once so that the harness compares it with the real compute_tax
